@@ -101,6 +101,14 @@ pub open spec fn eaten(pre: Cursor, post: Cursor) -> int { pre.rest().len() - po
 pub open spec fn total(c: Cursor) -> nat { utf8_len(c.tok()) + utf8_len(c.rest()) }
 pub open spec fn fits(c: Cursor) -> bool { total(c) <= 0x7fff_ffff }
 pub open spec fn peek(c: Cursor) -> char { if c.rest().len() > 0 { c.rest()[0] } else { '\0' } }
+/// C15: a time or imaginary unit is ahead (s, dt, ns, us, ms, µs, im): a numeric literal directly followed by one ends before it
+/// -- the unit is a token of its own
+pub open spec fn unit_ahead(s: Seq<char>) -> bool {
+    ||| (s.len() >= 1 && s[0] == 's')
+    ||| (s.len() >= 2 && s[1] == 's' && (s[0] == 'n' || s[0] == 'u' || s[0] == 'm' || s[0] == 'µ'))
+    ||| (s.len() >= 2 && s[0] == 'd' && s[1] == 't')
+    ||| (s.len() >= 2 && s[0] == 'i' && s[1] == 'm')
+}
 
 pub broadcast proof fn lemma_advanced_refl(a: Cursor)
     ensures #[trigger] advanced(a, a)
